@@ -264,6 +264,73 @@ def window_rules(prog, res, f):
                              "the averaged frame's id is %s, not the id of the first frame of its window" % ir.render(fid))
 
 
+def window_init(prog, res, f, rule="R-WINDOW"):
+    """The window state handed to process_data (accumulator pointer, frame
+    counter) is empty when an acquisition begins: it is zero-initialised on
+    every path from the worker's entry to the call (locals), or, when it lives
+    in an object that outlives the worker, by every start before thread_create."""
+    w = prog.func("video_filter_thread")
+    res.touched(w)
+    calls = [(b.id, i, c) for b, i, s in w.all_stmts() for c in ir.calls_in(s) if c.get("fn") == f.name]
+    if not calls:
+        raise AnalysisBroken("video_filter_thread no longer calls %s" % f.name)
+    # parameters of process_data that carry state in and out: pointer params
+    # that are both read and written through
+    state_params = []
+    for k, p in enumerate(f.params):
+        if not p.get("pd"):
+            continue
+        wr = rd = False
+        for b, i, s in f.all_stmts():
+            for lv, op, rhs, w_ in ir.writes_of(s):
+                root, ch = ir.field_chain(lv)
+                if lv.get("k") in ("deref", "idx") and isinstance(root, dict) and root.get("k") == "var" and root.get("id") == p["id"] and not ch:
+                    wr = True
+        if wr:
+            state_params.append(k)
+    if len(state_params) < 2:
+        raise AnalysisBroken("%s: window state parameters not found" % f.name)
+    start = prog.func("video_filter_start")
+    res.touched(start)
+    for k in state_params:
+        pname = f.params[k]["n"]
+        objs = set()
+        for bid, i, c in calls:
+            a = ir.strip(c["args"][k]) if k < len(c["args"]) else None
+            if isinstance(a, dict) and a.get("k") == "addr":
+                objs.add(ir.ap(a["e"]))
+            else:
+                objs.add(None)
+        inst = "video_filter_thread: window state '%s' is empty at the start of every acquisition" % pname
+        if None in objs or len(objs) != 1:
+            res.fail(rule, inst, "R-WINDOW|init|%s" % pname, w.loc(),
+                     "cannot identify the object passed as %s's %s" % (f.name, pname))
+            continue
+        obj = objs.pop()
+
+        def zero(s, obj=obj):
+            return any(ir.ap(lv) == obj and op == "=" and ir.is_const(rhs, 0) for lv, op, rhs, w_ in ir.writes_of(s))
+        dsts = {(bid, i) for bid, i, c in calls}
+        ok, wit = paths.all_paths_pass(w, "entry", dsts, zero)
+        how = "zero-initialised in the worker before the first %s" % f.name
+        if not ok and "->" in obj:
+            # lives in the controller object: every start must reset it
+            creates = {(b.id, i) for b, i, s in start.all_stmts() if any(c.get("fn") == "thread_create" for c in ir.calls_in(s))}
+            fld = obj.split("->", 1)[1]
+
+            def zero_s(s, fld=fld):
+                return any((ir.ap(lv) or "").endswith("->" + fld) and op == "=" and ir.is_const(rhs, 0) for lv, op, rhs, w_ in ir.writes_of(s))
+            if creates:
+                ok, wit = paths.all_paths_pass(start, "entry", creates, zero_s)
+                how = "reset by video_filter_start before thread_create"
+        if ok:
+            res.oblige(rule, inst, True, how, w.loc())
+        else:
+            res.fail(rule, inst, "R-WINDOW|init|%s" % pname, w.loc(),
+                     "the averaging state %s (passed as %s) is not reset when an acquisition starts: an incomplete trailing window of the previous "
+                     "acquisition is continued with the first frames of the next one, so windows are shifted and a committed frame is summed into" % (obj, pname))
+
+
 def pair_reader(prog, res, f, rule="PAIR"):
     opens = [(b.id, i, s) for b, i, s in f.all_stmts() if any(c.get("fn") == "channel_read_map" for c in ir.calls_in(s))]
     n = 0
@@ -300,10 +367,11 @@ def run(ctx, res):
     init_rmw(prog, res, f)
     accumulate_exhaustive(prog, res)
     window_rules(prog, res, f)
+    window_init(prog, res, f)
     n = pair_reader(prog, res, f)
     if n < 1:
         raise AnalysisBroken("process_data no longer maps its reader")
     res.require_min("O-INIT-RMW", 1)
     res.require_min("T-EXH", 5)
-    res.require_min("R-WINDOW", 8)
+    res.require_min("R-WINDOW", 10)
     res.require_min("PAIR", 1)
